@@ -19,6 +19,8 @@ EXTENDS Fnmatch, Json, IOUtils
 
 CONSTANTS SAlpha, SLen, Shards
 
+StrPunct     == {"!", "\"", "#", "$", "%", "&", "'", "(", ")", "*", "+", ",", "-", ".", "/", ":", ";", "<", "=", ">",
+                 "?", "@", "[", "\\", "]", "^", "_", "`", "{", "|", "}", "~", "a"}
 StrSet       == {"a", "&", "~", "-"}
 StrRegex     == {"a", "+", "(", ")", "|", "$", "{", "}", "\n"}
 StrFull      == {"a", "b", ".", "-", "]", "^"}
